@@ -322,7 +322,7 @@ class C14(Cfg):
         p = os.path.join(work, "alias.ops"); write_cases(p, ops, 60)
         res.append(("alias (all SQLite keywords and identifier shapes)", p, True))
         # ---- grammar-derived and mutated texts
-        n = 700 if tier == "quick" else 12000
+        n = 700 if tier == "quick" else 60000
         rnd = random.Random(seed * 7919 + 14)
         g = Gen(rnd)
         ops = []
@@ -348,7 +348,7 @@ class C14(Cfg):
         res.append(("grammar-derived and mutated texts seed=%d n=%d" % (seed, n), p, False))
         # ---- bytes
         ops = []
-        m = 150 if tier == "quick" else 3000
+        m = 150 if tier == "quick" else 15000
         for i in range(m):
             ln = rnd.choice([0, 1, 2, 3, 4, 8, 9, 16, 17, 33, 64, 100])
             b = bytes(rnd.randrange(256) if rnd.randrange(3) else rnd.choice([0, 1, 255]) for _ in range(ln))
